@@ -1,4 +1,4 @@
-use crate::{meta, PropMeta};
+use crate::engine::{meta, PropMeta};
 
 pub mod common;
 
